@@ -11,7 +11,8 @@ import (
 
 // Engine cb — C08: histories over the exported CellBuffer API.
 //
-// line:  cb <op>; <op>; …     ops: S x y main comb style | F r style | R w h | I | D x y 0|1 | L x y | U x y |
+// line:  cb <op>; <op>; …     ops: S x y main comb style (comb: `-` nil slice, `=` empty non-nil slice, else r,r,…) |
+//                                  F r style | R w h | I | D x y 0|1 | L x y | U x y |
 //                                  G x y (observe GetContent) | Q x y (observe Dirty) | Z (observe Size)
 // reply: the observations in order, then "H <w>x<h>:<GetContent/Dirty of every cell>".
 //
@@ -50,6 +51,24 @@ func fillZWSuffix() string {
 	}()
 	fillZWVariant = &s
 	return s
+}
+
+// combRunes decodes the combining-list token of an `S` op (cb, draw).  Callers hand SetContent a nil slice, an empty
+// slice that is not nil (Screen.SetCell passes ch[1:]; an application may pass []rune{}) or a list of runes: the
+// property statements know "combining runes" as a list, so the three spellings of the empty list are the same input.
+func combRunes(tok string) []rune {
+	if tok == "=" {
+		return []rune{}
+	}
+	return toRunes(h.IntList(tok))
+}
+
+// showComb renders a combining list for a generated `S` op; emptyNonNil picks `=` for the empty list.
+func showComb(l []int, emptyNonNil bool) string {
+	if len(l) == 0 && emptyNonNil {
+		return "="
+	}
+	return h.ShowIntList(l)
 }
 
 type cbContent struct {
@@ -173,8 +192,12 @@ func execCB(line string) h.Result {
 		}
 		switch f[0] {
 		case "S":
-			x, y, m, comb, st := h.Atoi(f[1]), h.Atoi(f[2]), h.Atoi(f[3]), h.IntList(f[4]), ParseStyleF(f[5])
-			cslice := toRunes(comb)
+			x, y, m, st := h.Atoi(f[1]), h.Atoi(f[2]), h.Atoi(f[3]), ParseStyleF(f[5])
+			cslice := combRunes(f[4]) // `-` = nil, `=` = empty but not nil (what Screen.SetCell hands over), else the runes
+			comb := fromRunes(cslice)
+			if cslice != nil && len(cslice) == 0 {
+				tags["comb-empty-non-nil"] = true
+			}
 			cb.SetContent(x, y, rune(m), cslice, st.ToStyle())
 			for i := range cslice { // the caller mutates its slice afterwards: the buffer must hold a copy
 				cslice[i] = 'X'
@@ -361,6 +384,21 @@ func genCB(g *h.Gen) {
 			}
 		}
 	}
+	// directed: identical content stored again into a clean cell, the empty combining list spelled as a nil slice and as
+	// an empty non-nil one (both orders), narrow / wide / zero-width primary, with and without combining runes
+	{
+		v := ""
+		if fillZWSuffix() != "" {
+			v = "V fz; "
+		}
+		d := "0,0,0,0,0,-,-"
+		for _, m := range []int{'a', 0x4e16, 0x200b, ' '} {
+			for _, c := range [][2]string{{"-", "="}, {"=", "-"}, {"=", "="}, {"769", "769"}} {
+				g.Emit("cb %sR 3 1; S 0 0 %d %s %s; D 0 0 0; D 1 0 0; S 0 0 %d %s %s; Q 0 0; Q 1 0; G 0 0; D 0 0 0; S 0 0 %d %s %s; Q 0 0; Q 1 0",
+					v, m, c[0], d, m, c[1], d, m, c[0], d)
+			}
+		}
+	}
 	n := g.N(3000, 200000)
 	for i := 0; i < n; i++ {
 		var ops []string
@@ -383,7 +421,8 @@ func genCB(g *h.Gen) {
 		}
 		var hist []stored
 		set := func(x, y, m int, comb []int, st string) {
-			ops = append(ops, fmt.Sprintf("S %d %d %d %s %s", x, y, m, h.ShowIntList(comb), st))
+			// an empty combining list reaches SetContent as nil or as an empty non-nil slice (Screen.SetCell's ch[1:])
+			ops = append(ops, fmt.Sprintf("S %d %d %d %s %s", x, y, m, showComb(comb, r.Chance(40)), st))
 			if x >= 0 && y >= 0 && x < w && y < hh {
 				hist = append(hist, stored{x, y, m, comb, st})
 			}
